@@ -303,3 +303,275 @@ Proof.
   intuition (subst; try discriminate; auto).
 Qed.
 End Mon2.
+
+Section Whole2.
+Variables (c : cfg) (g : graph).
+Hypothesis W : WF g.
+Hypothesis Ha : 0 < attempts c.
+
+(** a node whose whole sub-tree is failed/cancelled *)
+Definition Dead (s : st) (u : nat) : Prop := u < length g /\ forall d, reach g u d -> FC s d.
+
+Record L2 (s : st) (b : base) : Prop := {
+  l2_dead : forall u, In u (dead b) -> Dead s u;
+  l2_fc : forall x, FC s x -> (exists w, In w (dead b) /\ reach g w x) \/
+                             (cseen b = true /\ In x (cancelled s) /\ incl (parents (attr g x)) (completed s));
+  l2_succ : forall x, In x (completed s) -> In x (succ b) \/ status (getrec s x) = DRYRUN;
+  l2_cseen : cseen b = canceled s;
+  l2_tdel : tdel b = [];
+  l2_oksub : oksub b = [];
+  l2_nlen : length (nsub b) = length g;
+  l2_nsub : forall x, nth x (nsub b) 0 = 0 }.
+
+Lemma desc_In u x : u < length g -> (mem x (desc g u) = true <-> x <> u /\ reach g u x).
+Proof.
+  intros Hu. unfold desc. rewrite mem_In, In_srem, (bfs_subtree_iff g u x W Hu). tauto.
+Qed.
+
+Lemma one_poll2 s p s1 r M : Good c g s -> Ja g s [] [] -> valid_pin s p = true -> poll c g s p = (s1, r) ->
+  clean2 M -> L2 s (mb M) ->
+  let M1 := step_poll c g M (p, (rev (evs s1), rows_of s1, r)) in
+  clean2 M1 /\ L2 s1 (mb M1).
+Proof.
+  intros [I T] JA V E Cl [Ld Lf Ls Lc Lt Lo Lnl Lns]. cbv zeta. unfold step_poll.
+  pose proof (i2_inv g s I) as I0.
+  (* everything the state-level theorems say about this poll *)
+  pose proof (poll_events c g s p W I0 V) as PE.
+  pose proof (poll_no_submit_same c g s p W I0 T V) as PN.
+  pose proof (poll_reported c g s p W I0 V) as PR.
+  pose proof (poll_subs c g s p W I0 V) as PS. cbv zeta in PS.
+  pose proof (poll_exact c g s p W Ha I0 V) as PX. cbv zeta in PX.
+  pose proof (poll_completed c g s p W I0 V) as PC. cbv zeta in PC.
+  pose proof (poll_mono c g s p W I0 V) as PM. cbv zeta in PM.
+  pose proof (poll_canceled c g s p W I0 V) as PCn.
+  pose proof (poll_evs c g s p W I0 V) as (new & EV & Hnew).
+  pose proof (poll_Inv2 c g s p W I T V) as I1.
+  pose proof (poll_Ja c g s p W I0 V JA) as JA1.
+  pose proof (poll_status c g s p) as PSt.
+  rewrite E in *. cbn [fst snd] in *.
+  destruct PS as [PS1 PS2]. destruct PC as [PC1 PC2]. destruct PM as (PMf & PMc & PMk & _).
+  destruct (Ja_boundary g s1 (i2_inv g s1 I1) JA1) as [JB1 JB2].
+  apply valid_pin_spec in V. destruct V as [_ Vi].
+  assert (FCm : forall y, FC s y -> FC s1 y) by (intros y [H|H]; [left|right]; auto).
+  (* the events of the poll *)
+  set (es := rev (evs s1)).
+  assert (InEs : forall e, In e es <-> In e (evs s1)) by (intros e; unfold es; rewrite <- in_rev; tauto).
+  rewrite poll_mid_evs in EV.
+  assert (Fcan : (exists js, In (ECancel js) es) <-> cancel_req p = true).
+  { split.
+    - intros [js H]. apply InEs in H. rewrite EV in H. rewrite !in_app_iff in H. destruct H as [H|[H|H]].
+      + destruct (Hnew _ H) as [[x Hx]|(x & k & sc & res & Hx)]; discriminate.
+      + destruct (negb (dry c)); [destruct H as [H|[]]; discriminate|destruct H].
+      + destruct (cancel_req p); [reflexivity|destruct H].
+    - intros Cq. rewrite Cq in EV. eexists. apply InEs. rewrite EV. rewrite !in_app_iff. right. right. left. reflexivity. }
+  assert (Fchk : (exists e, In e es /\ is_check e) <-> dry c = false).
+  { split.
+    - intros (e & H & [js ->]). apply InEs in H. rewrite EV in H. rewrite !in_app_iff in H. destruct H as [H|[H|H]].
+      + destruct (Hnew _ H) as [[x Hx]|(x & k & sc & res & Hx)]; discriminate.
+      + destruct (dry c); [destruct H|reflexivity].
+      + destruct (cancel_req p); [destruct H as [H|[]]; discriminate|destruct H].
+    - intros D. rewrite D in EV. cbn [negb] in EV. eexists. split; [|eexists; reflexivity].
+      apply InEs. rewrite EV. rewrite !in_app_iff. right. left. left. reflexivity. }
+  assert (Hok : forall y, has_ok y es <-> has_ok y (evs s1)).
+  { intros y. unfold has_ok. split; intros (k & sc & j & H); exists k, sc, j; apply InEs; exact H. }
+  assert (Hsub : forall y, submits y es <-> exists k sc res, In (ESubmit y k sc res) (evs s1)).
+  { intros y. unfold submits. split; intros (k & sc & res & H); exists k, sc, res; apply InEs; exact H. }
+  (* the ledger before the first event *)
+  set (M0 := pre_poll p es M).
+  assert (P0 : clean2 M0 /\ dead (mb M0) = dead (mb M) /\ succ (mb M0) = succ (mb M) /\ tdel (mb M0) = [] /\
+               oksub (mb M0) = [] /\ nsub (mb M0) = nsub (mb M) /\
+               (cseen (mb M0) = true <-> cseen (mb M) = true \/ cancel_req p = true)).
+  { unfold M0, pre_poll. destruct (cancel_req p); [|splits; auto; intuition discriminate]. cbn [mb viol].
+    splits; auto; [|cbn; tauto].
+    intros k Hk Hin. apply in_app_iff in Hin. destruct Hin as [Hin|Hin]; [exact (Cl k Hk Hin)|].
+    apply ck_In2 in Hin. destruct Hin as [_ ->]. unfold fam2 in Hk. intuition discriminate. }
+  destruct P0 as (Cl0 & P0d & P0s & P0t & P0o & P0n & P0c).
+  (* a delivered FAILED / UNKNOWN / CANCELLED report kills the whole sub-tree *)
+  assert (DelDead : forall u, delFUC p u -> dry c = false -> Dead s1 u).
+  { intros u [Q (v & Hin & Hv)] D. split; [apply (i_bound g s I0); right; left; eapply Vi; eauto|].
+    pose proof (PR D Q u v Hin) as R. destruct Hv as [ -> | [ -> | -> ] ]; cbn [reported_ok] in R; destruct R as [R _];
+      intros d Rd; [left|left|right]; auto. }
+  assert (OldDead : forall u, In u (dead (mb M)) -> Dead s1 u).
+  { intros u Hu. destruct (Ld u Hu) as [A B]. split; auto. }
+  (* no submitted node lies strictly below a dead node *)
+  set (okd := fun u => In u (dead (mb M)) \/ delFUC p u).
+  assert (Hev : forall e, In e es -> ev2_ok g okd e).
+  { intros e He. apply InEs in He. destruct e as [js|js|x|x k sc res]; cbn [ev2_ok]; auto.
+    destruct (PE x k sc res He) as (_ & D & Hxl & _ & Anc & _).
+    intros u [Hu|Hu].
+    - destruct (Ld u Hu) as [Hul Hd]. destruct (mem x (desc g u)) eqn:Em; auto. exfalso.
+      apply (desc_In u x Hul) in Em. destruct Em as [_ R]. apply (Anc u); auto. apply Hd. apply reach_refl.
+    - destruct (DelDead u Hu D) as [Hul Hd]. destruct (mem x (desc g u)) eqn:Em; auto. exfalso.
+      apply (desc_In u x Hul) in Em. destruct Em as [Hne R]. apply Hne. symmetry.
+      apply (PN x k sc res He u); auto. apply Hd. apply reach_refl. }
+  assert (Cl' : clean2 (fold_left (step_ev c g p) es M0)).
+  { apply (fold_step_ev2 c g p okd); auto.
+    - intros u Hu. left. rewrite <- P0d. exact Hu.
+    - intros u Hu. right. exact Hu. }
+  set (M' := fold_left (step_ev c g p) es M0) in *.
+  pose proof (after_fold c g p es (mb M0)) as AF. rewrite <- (mb_fold c g p es M0) in AF. fold M' in AF.
+  destruct AF as [Ac Ad1 Ad2 Ad3 At As1 As3 As4 Ao Anl Ans].
+  rewrite P0d in Ad1, Ad2. rewrite P0t in At. rewrite P0s in As1. rewrite P0o in Ao. rewrite P0n in Anl, Ans.
+  (* the cancel flag *)
+  assert (CS : cseen (mb M') = canceled s1).
+  { rewrite PCn. apply Bool.eq_iff_eq_true. rewrite Ac, P0c, Fcan, Lc, orb_true_iff. tauto. }
+  (* no successful submission for a node that ends failed/cancelled *)
+  assert (NoOk : forall w, FC s1 w -> ~ In w (oksub (mb M'))).
+  { intros w Fw Hw. apply Ao in Hw. destruct Hw as [[]|Hw]. apply Hok in Hw.
+    destruct (i_dj_fc g s1 (i2_inv g s1 I1) w Fw) as (A & B & _). destruct (PS2 w Hw); contradiction. }
+  (* the unsuccessful ends recorded at the end of this poll have their sub-trees swept *)
+  set (dd := dead_end g (mb M')).
+  assert (DDin : forall u, In u dd <-> In u (dead (mb M')) \/ (In u (tdel (mb M')) /\ ~ In u (oksub (mb M'))) \/
+                                       (u < length g /\ 0 < nth u (nsub (mb M')) 0 /\ ~ In u (oksub (mb M')))).
+  { intros u. apply dead_end_In. rewrite Anl. exact Lnl. }
+  assert (FailedDead : forall u, u < length g -> In u (failed s1) -> Dead s1 u).
+  { intros u Hul Hu. split; auto. intros d Rd. apply (closed_desc g s1 u W I1); auto. }
+  assert (DD : forall u, In u dd -> Dead s1 u).
+  { intros u Hu. apply DDin in Hu. destruct Hu as [Hu|[[Hu Hn]|(Hul & Hu & Hn)]].
+    - destruct (Ad2 u Hu) as [H|[H Hc]]; [apply OldDead; exact H|]. apply DelDead; auto. apply Fchk. exact Hc.
+    - apply At in Hu. destruct Hu as [[]|[[Q Hin] Hc]]. apply Fchk in Hc.
+      pose proof (PR Hc Q u TIMEDOUT Hin) as R. cbn [reported_ok] in R. destruct R as (_ & _ & [[Hf _]|(sc & j & Hj)]).
+      + apply FailedDead; auto. apply (i_bound g s1 (i2_inv g s1 I1)). tauto.
+      + exfalso. apply Hn. apply Ao. right. apply Hok. exists Restart, sc, j. exact Hj.
+    - apply Ans in Hu; [|rewrite Lnl; exact Hul]. destruct Hu as [Hu|Hu]; [rewrite Lns in Hu; lia|].
+      apply Hsub in Hu. destruct Hu as (k & sc & res & Hu). destruct res as [j|].
+      + exfalso. apply Hn. apply Ao. right. apply Hok. exists k, sc, j. exact Hu.
+      + destruct (PS1 u k sc Hu) as [H|H]; [exfalso; apply Hn; apply Ao; right; apply Hok; exact H|].
+        apply FailedDead; auto. }
+  (* every failed/cancelled node has a cause the ledger knows *)
+  assert (FCdd : forall x, FC s1 x -> (exists w, In w dd /\ reach g w x) \/
+                                      (cseen (mb M') = true /\ In x (cancelled s1) /\ incl (parents (attr g x)) (completed s1))).
+  { intros x Fx. destruct (PX x Fx) as [H|[(P1 & P2 & P3)|(w & Rw & Rx & Fw)]].
+    - destruct (Lf x H) as [(w & Hw & Rw)|(C1 & C2 & C3)].
+      + left. exists w. split; auto. apply DDin. left. auto.
+      + right. splits; auto. apply Ac. rewrite P0c. auto. intros z Hz. auto.
+    - right. rewrite CS. auto.
+    - left. exists w. split; auto. apply DDin.
+      assert (Hwl : w < length g) by (apply (i_bound g s1 (i2_inv g s1 I1)); destruct Fw; auto).
+      destruct Rw as [(v & Hin & Hv)|(k & sc & Hev')].
+      + (* a dispatched unsuccessful report *)
+        assert (Dn : dry c = false /\ qcode p = QOK /\ In (w, Some v) (reports p)).
+        { unfold done_final, delivered in Hin.
+          destruct (dry c); cbn [negb andb] in Hin; [rewrite ?andb_false_r in Hin; destruct Hin|].
+          rewrite andb_true_r in Hin. destruct (qcode p); cbn in Hin; try destruct Hin. auto. }
+        destruct Dn as (D & Q & Hin').
+        assert (Hc : exists e, In e es /\ is_check e) by (apply Fchk; exact D).
+        destruct Hv as [ -> | [ -> | [ -> | -> ] ] ].
+        * left. apply Ad3; auto. split; auto. exists FAILED. unfold fuc. auto.
+        * left. apply Ad3; auto. split; auto. exists UNKNOWN. unfold fuc. auto.
+        * left. apply Ad3; auto. split; auto. exists CANCELLED. unfold fuc. auto.
+        * right. left. split; [|apply NoOk; exact Fw]. apply At. right. split; auto. split; auto.
+      + (* a failed submission *)
+        right. right. split; [exact Hwl|]. split; [|apply NoOk; exact Fw].
+        apply Ans; [rewrite Lnl; exact Hwl|]. right. apply Hsub. exists k, sc, None. exact Hev'. }
+  (* completed nodes succeeded *)
+  assert (SUCC : forall x, In x (completed s1) -> In x (succ (mb M')) \/ status (getrec s1 x) = DRYRUN).
+  { intros x Hx. destruct (PC2 x Hx) as [H|[H|[(k & j & H)|H]]]; auto.
+    - destruct (Ls x H) as [B|B]; [left; auto|right; rewrite (PC1 x H); exact B].
+    - left. unfold done_final, delivered in H.
+      destruct (dry c) eqn:D; cbn [negb andb] in H; [rewrite ?andb_false_r in H; destruct H|].
+      rewrite andb_true_r in H. destruct (qcode p) eqn:Q; cbn in H; try destruct H.
+      apply As3; [apply Fchk; reflexivity|]. split; auto.
+    - left. apply (As4 x k j). apply InEs. exact H. }
+  split.
+  - (* the verdicts of this poll *)
+    intros k Hk Hin. cbn [viol] in Hin. apply in_app_iff in Hin. destruct Hin as [Hin|Hin]; [exact (Cl' k Hk Hin)|].
+    destruct (flags_end2 c g p (mb M') (rows_of s1) r k Hk Hin) as [[_ B]|[[_ B]|[[_ B]|[_ B]]]]; fold dd in B.
+    + (* 21 *)
+      assert (B' : forallb (fun u => forallb (fun d => fc_row (row_status (rows_of s1) d)) (desc g u)) dd = true).
+      { apply forallb_forall. intros u Hu. apply forallb_forall. intros d Hd.
+        destruct (DD u Hu) as [Hul Hsw]. apply mem_In in Hd. apply (desc_In u d Hul) in Hd. destruct Hd as [Hne Rd].
+        rewrite row_status_rows_of.
+        destruct (desc_status g s1 u d W I1 (Hsw u (reach_refl g u)) Rd (fun E' => Hne (eq_sym E')) (Hsw d Rd)) as [H|H];
+          rewrite H; reflexivity. }
+      congruence.
+    + (* 22 *)
+      assert (B' : forallb (fun u => match row_status (rows_of s1) u with FAILED | CANCELLED | TIMEDOUT => true | _ => false end) dd = true).
+      { apply forallb_forall. intros u Hu. destruct (DD u Hu) as [_ Hsw]. rewrite row_status_rows_of.
+        destruct (e_sf g s1 (i2_ext g s1 I1) u (Hsw u (reach_refl g u))) as [H|[H|H]]; rewrite H; reflexivity. }
+      congruence.
+    + (* 23 *)
+      assert (B' : forallb (fun x => impb (fc_row (row_status (rows_of s1) x))
+                 (mem x dd || in_desc_of g dd x || (cseen (mb M') && state_eqb (row_status (rows_of s1) x) CANCELLED)))
+                 (all_nodes g) = true).
+      { apply forallb_forall. intros x Hx. rewrite row_status_rows_of. unfold impb.
+        destruct (fc_row (status (getrec s1 x))) eqn:Ef; [|reflexivity]. cbn [negb orb].
+        assert (Fs : fc_status (status (getrec s1 x))).
+        { unfold fc_status. destruct (status (getrec s1 x)); try discriminate; auto. }
+        pose proof (JB1 x Fs) as Fx.
+        destruct (FCdd x Fx) as [(w & Hw & Rw)|(C1 & C2 & C3)].
+        - destruct (Nat.eq_dec w x) as [->|Hne].
+          + apply mem_In in Hw. rewrite Hw. reflexivity.
+          + assert (Hd : in_desc_of g dd x = true).
+            { unfold in_desc_of. apply existsb_exists. exists w. split; auto.
+              apply (desc_In w x (proj1 (DD w Hw))). auto. }
+            rewrite Hd, orb_true_r. reflexivity.
+        - rewrite C1, (JB2 x C2 C3). cbn. rewrite !orb_true_r. reflexivity. }
+      congruence.
+    + (* 24 *)
+      apply orb_false_iff in B. destruct B as [B1 B2]. apply negb_false_iff in B1.
+      assert (Hn : r = SFINISHED \/ r = SFAILURE).
+      { destruct r; cbn in B1; try discriminate; auto. }
+      destruct PSt as [PSt|PSt]; [rewrite PSt in Hn; destruct Hn; discriminate|].
+      rewrite PSt in Hn. destruct (completion_normal g s1 Hn) as [Cn Cx].
+      assert (B' : forallb (fun x => mem x dd || in_desc_of g dd x || mem x (succ (mb M')) ||
+                                     state_eqb (row_status (rows_of s1) x) DRYRUN) (all_nodes g) = true).
+      { apply forallb_forall. intros x Hx. apply In_seq_lt in Hx. rewrite row_status_rows_of.
+        destruct (Cx x Hx) as [Hc|Hf].
+        - destruct (SUCC x Hc) as [H|H].
+          + apply mem_In in H. rewrite H, !orb_true_r. reflexivity.
+          + rewrite H. cbn. rewrite !orb_true_r. reflexivity.
+        - destruct (FCdd x (or_introl Hf)) as [(w & Hw & Rw)|(_ & C2 & _)]; [|rewrite Cn in C2; destruct C2].
+          destruct (Nat.eq_dec w x) as [->|Hne].
+          + apply mem_In in Hw. rewrite Hw. reflexivity.
+          + assert (Hd : in_desc_of g dd x = true).
+            { unfold in_desc_of. apply existsb_exists. exists w. split; auto.
+              apply (desc_In w x (proj1 (DD w Hw))). auto. }
+            rewrite Hd, orb_true_r. reflexivity. }
+      congruence.
+  - (* the coupling at the next poll boundary *)
+    cbn [mb]. unfold end_base. constructor; cbn [dead succ cseen tdel oksub nsub]; auto.
+    + rewrite map_length, Anl. exact Lnl.
+    + intros x. clear. generalize (nsub (mb M')). intros l. revert x. induction l as [|a l IH]; intros [|x]; cbn; auto.
+Qed.
+End Whole2.
+
+Section Whole2b.
+Variables (c : cfg) (g : graph).
+Hypothesis W : WF g.
+Hypothesis Ha : 0 < attempts c.
+
+Lemma mon2_gen ps : forall s M, Good c g s -> Ja g s [] [] -> valid_pins c g s ps = true ->
+  clean2 M -> L2 g s (mb M) ->
+  clean2 (fold_left (step_poll c g) (zip ps (run c g s ps)) M).
+Proof.
+  induction ps as [|p ps IH]; intros s M G JA V Cl L; cbn [run zip fold_left]; auto.
+  cbn [valid_pins] in V. apply andb_true_iff in V. destruct V as [V1 V2].
+  pose proof (Good_poll c g s p W G V1) as G1.
+  pose proof (poll_Ja c g s p W (i2_inv g s (proj1 G)) V1 JA) as JA1.
+  destruct (poll c g s p) as [s1 r] eqn:E. cbn [fst] in G1, JA1.
+  destruct (one_poll2 c g W Ha s p s1 r M G JA V1 E Cl L) as [Cl1 L1].
+  destruct r; cbn [zip fold_left]; try (destruct ps; exact Cl1).
+  apply (IH s1); auto.
+Qed.
+
+Theorem C02_monitor_proof ps : valid_pins c g (init g) ps = true ->
+  prop_ok 2 c g ps (run c g (init g) ps) = true.
+Proof.
+  intros V. unfold prop_ok, viol_of, monitor.
+  assert (Cl : clean2 (fold_left (step_poll c g) (zip ps (run c g (init g) ps)) (mon0 g))).
+  { apply (mon2_gen ps (init g)); auto.
+    - apply Good_init.
+    - apply init_Ja.
+    - intros k _ [].
+    - unfold mon0, base0. constructor; cbn [mb dead succ cseen tdel oksub nsub].
+      all: try solve [auto | intros u [] | intros x [[]|[]] | apply map_length].
+      intros x. clear. revert x. induction g as [|a g' IH]; intros [|x]; cbn; auto. }
+  cbn [family forallb]. rewrite !andb_true_iff. unfold clean2, fam2 in Cl.
+  splits; auto; apply negb_true_iff, mem_false; apply Cl; auto 6.
+Qed.
+End Whole2b.
+
+Theorem C02_monitor_wf c g ps : wf_graph g = true -> 0 < attempts c ->
+  valid_pins c g (init g) ps = true -> prop_ok 2 c g ps (run c g (init g) ps) = true.
+Proof. intros Wf Ha V. apply C02_monitor_proof; auto. apply wf_graph_WF. exact Wf. Qed.
